@@ -62,7 +62,8 @@ def generate(rng, index, tier):
     scn['api'] = rng.pick(['kd', 'kd', 'pk'])
     if rng.chance(0.25):
         # records a kernel buffer can hold besides decoded ones: all-zero slots, all-ones, zero timestamp and debugid
-        scn['special'] = [[rng.randrange(0, nrec + 1), rng.pick(['zero', 'zero', 'ones', 'zts'])] for _ in range(rng.randint(1, 3))]
+        scn['special'] = [[rng.randrange(0, nrec + 1), rng.pick(['zero', 'zero', 'ones', 'zts', 'magic', 'magic'])] for _ in range(rng.randint(1, 3))]
+        scn['magic'] = [worlds.magic_record(rng).hex() for _ in range(3)]
     scn['cli'] = index % 16 == 0
     if rng.chance(0.2):
         # the SAME KdBufParser object parsed another v3 dump before, and that listing was abandoned somewhere (possibly
@@ -123,6 +124,8 @@ def execute(scn):
     rb = [kernel.to_bytes(r) for r in stream]
     for pos, kind in sorted(scn.get('special', []), reverse=True):
         blob = {'zero': bytes(64), 'ones': b'\xff' * 64}.get(kind) or (bytes(8) + bytes(range(1, 41)) + bytes(4) + bytes(range(50, 62)))
+        if kind == 'magic' and scn.get('magic'):
+            blob = bytes.fromhex(scn['magic'][pos % len(scn['magic'])])
         rb.insert(min(pos, len(rb)), blob)
         bump('probe:special_record')
     w = scn['writer']
